@@ -154,6 +154,13 @@ impl Write for DBFile {
     }
 
     fn write(&mut self, buf: &[u8]) -> io::Result<usize> {
+        #[cfg(feature = "verif")]
+        crate::verif::io::tap(
+            crate::verif::io::Kind::Write,
+            &self.p,
+            self.f.stream_position().unwrap_or(0),
+            buf,
+        );
         self.f.write(buf)
     }
 }
@@ -181,6 +188,8 @@ impl FileOperations for DBFile {
             .sync_on_write(false) // This is O_DSYNC (not used for now)
             .open(&path)?;
 
+        #[cfg(feature = "verif")]
+        crate::verif::io::tap(crate::verif::io::Kind::Create, path.as_ref(), 0, &[]);
         Ok(Self {
             f,
             p: path.as_ref().to_path_buf(),
@@ -208,11 +217,15 @@ impl FileOperations for DBFile {
 
     // truncate the file to 0 len
     fn truncate(&mut self) -> io::Result<()> {
+        #[cfg(feature = "verif")]
+        crate::verif::io::tap(crate::verif::io::Kind::SetLen, &self.p, 0, &[]);
         self.f.set_len(0)
     }
 
     // sync the file to disk
     fn sync_all(&self) -> io::Result<()> {
+        #[cfg(feature = "verif")]
+        crate::verif::io::tap(crate::verif::io::Kind::Sync, &self.p, 0, &[]);
         File::sync_all(&self.f)
     }
 }
